@@ -759,6 +759,35 @@ def rule_e(ctx: Context, R: Reporter):
     R.floor("C12.e", "definitions of the returned weights", n, 3)
 
 
+def rule_i(ctx: Context, R: Reporter):
+    """C12.i  the target the caller asked for is the target the run terminates against: every function that calls the run
+    driver passes its own `n_total` parameter on as it received it (no rounding to batches, no cast that can lower it,
+    no re-binding before the call)."""
+    fi, _loop = run_driver(ctx)
+    if "n_total" not in fi.params:
+        raise AnalysisError("C12.i: the run driver has no n_total parameter")
+    idx = [p for p in fi.params if p not in ("self", "cls")].index("n_total")
+    n = 0
+    for g in ctx.prog.functions.values():
+        if g is fi:
+            continue
+        for (call, tg) in ctx.cg.sites.get(g.qualname, []):
+            if fi not in tg:
+                continue
+            a = call_arg(call, idx, "n_total")
+            if a is None:
+                continue
+            n += 1
+            flow = flow_of(g.node)
+            at = flow.node_containing(call)
+            ok = isinstance(a, ast.Name) and a.id in g.params and at is not None and all(d.kind == "param" for d in flow.reaching(at, a.id))
+            R.check("C12.i", f"{g.short} hands the caller's n_total to the run driver unchanged", ok, g, call,
+                    msg=f"{g.short}: the run driver is called with n_total=`{unparse(a)[:50]}`" + ("" if not isinstance(a, ast.Name) else " (re-bound before the call: "
+                        + "; ".join(norm_text(d.stmt)[:60] for d in (flow.reaching(at, a.id) if at is not None else []) if d.kind != "param" and d.stmt is not None) + ")")
+                        + ", not the value the caller passed: the loop terminates against another target, so ESS >= n_total (as requested) need not hold on return", key=f"n_total-forwarded:{g.short}")
+    R.floor("C12.i", "callers of the run driver passing n_total", n, 1)
+
+
 def rule_h(ctx: Context, R: Reporter):
     """C12.h  the public posterior() is a pass-through of the core's result: whatever wraps the posterior
     function either returns its result untouched or applies one row selection to every component
@@ -825,6 +854,7 @@ def rule_h(ctx: Context, R: Reporter):
 
 def run(ctx: Context, R: Reporter):
     R.guard(rule_h, ctx, R)
+    R.guard(rule_i, ctx, R)
     R.guard(rule_g, ctx, R)
     R.guard(rule_f, ctx, R)
     R.guard(rule_e, ctx, R)
@@ -841,6 +871,7 @@ def variants():
     return [
         Variant("a-or-to-and", "bad", replace_expr(core, "SamplerCore._not_termination", "1.0 - beta >= 0.0001 or ess < getattr(self, 'n_total', 0)", "1.0 - beta >= 0.0001 and ess < getattr(self, 'n_total', 0)"), ["C12.a"], quick=True),
         Variant("a-loose-tolerance", "bad", replace_expr(core, "SamplerCore._not_termination", "0.0001", "0.01"), ["C12.a"], quick=True),
+        Variant("i-facade-rounds-target-down", "bad", insert_before("tempest/sampler.py", "Sampler.run", "return self._core.run_sampling", "n_total = (int(n_total) // self.n_particles) * self.n_particles"), ["C12.i"], quick=True),
         Variant("a-ess-rounded-to-nearest", "bad", replace_stmt(core, "SamplerCore._not_termination", "ess = effective_sample_size(weights)", "ess = int(np.rint(effective_sample_size(weights)))"), ["C12.a"], quick=True),
         Variant("a-benign-ess-as-float", "benign", replace_stmt(core, "SamplerCore._not_termination", "ess = effective_sample_size(weights)", "ess = float(effective_sample_size(weights))")),
         Variant("a-drop-ess", "bad", replace_expr(core, "SamplerCore._not_termination", "1.0 - beta >= 0.0001 or ess < getattr(self, 'n_total', 0)", "1.0 - beta >= 0.0001"), ["C12.a"]),
